@@ -389,6 +389,46 @@ def asan_second_opinion(tier, seed):
             "hits": hits[:20], "n_hits": len(hits)}
 
 
+
+def borrow_census(repo=None):
+    """the RefCell borrow sites of the crate, per function, in program order (borrow / borrow_mut / the
+    explicit drop(links) / the ptr::eq self tests that guard them): what Proofs/Borrow.v transcribes by hand"""
+    repo = repo or P.REPO
+    out = {}
+    for f in ("adopt.rs", "drop.rs", "cycle.rs", "rc.rs", "link.rs", "hash.rs"):
+        try:
+            src = open("%s/src/%s" % (repo, f)).read()
+        except OSError:
+            continue
+        cur = None
+        for l in src.split("\n"):
+            l = re.sub(r"//.*$", "", l)
+            m = re.match(r"^\s*(?:pub(?:\([a-z]+\))?\s+)?(?:unsafe\s+)?(?:extern \"C\"\s+)?fn\s+(\w+)", l)
+            if m:
+                cur = "%s::%s" % (f, m.group(1))
+            if cur is None:
+                continue
+            for t in re.finditer(r"\.borrow_mut\(\)|\.borrow\(\)|drop\(links\)|ptr::eq\(", l):
+                out.setdefault(cur, []).append({".borrow_mut()": "mut", ".borrow()": "shr", "drop(links)": "rel",
+                                                "ptr::eq(": "eq"}[t.group(0)])
+    return out
+
+
+def c10_census():
+    """C10's annotation layer (Proofs/Borrow.v) is a hand transcription of the borrow sites; this re-derives
+    the sites from /repo's source on every run and compares them with the census the transcription was
+    made from (lib/borrow_census.json). A difference means Borrow.v no longer describes the code."""
+    want = json.load(open(os.path.join(P.ROOT, "lib", "borrow_census.json")))
+    got = borrow_census()
+    ties = []
+    for k in sorted(set(want) | set(got)):
+        if want.get(k) != got.get(k):
+            ties.append({"type": "census", "hid": "borrow-census", "line": k, "idx": 0, "fields": ["borrow-sites"],
+                         "model": "Proofs/Borrow.v transcribes %s as %s" % (k, want.get(k)),
+                         "impl": "the source now has %s" % (got.get(k),), "stream": "source"})
+    return {"functions": len(got), "sites": sum(len(v) for v in got.values()), "ties": ties}
+
+
 def extra_checks(pid, cfg, tier, seed):
     if pid == "C02" and tier == "thorough":
         r = _cached("asan-%s" % seed, lambda: asan_second_opinion(tier, seed))
@@ -398,6 +438,11 @@ def extra_checks(pid, cfg, tier, seed):
                      "oracle": "C02:asan-build-failed", "disc": "1", "d4": "0", "shrinkable": False}]
         return {"oracle_hits": hits, "evaluations": r["histories"], "distinct_nontrivial": 0,
                 "evidence": {"asan_second_opinion": {k: r.get(k) for k in ("built", "histories", "outside_the_preconditions_skipped", "implementation_crashes_or_reports", "n_hits")}}}
+    if pid == "C10":
+        r = c10_census()
+        return {"oracle_hits": [], "tie_breaks": r["ties"], "evaluations": r["sites"], "distinct_nontrivial": 0,
+                "evidence": {"borrow_site_census": {"functions": r["functions"], "sites": r["sites"],
+                                                    "differences": [t["line"] for t in r["ties"]]}}}
     if pid == "C07":
         r = _cached("c07-%s-%s" % (tier, seed), lambda: c07_std(tier, seed))
         g = _cached("glue", glue_run)
